@@ -29,9 +29,10 @@ Definition fd1 (m : fdmode) (h : K) (l : list K) : list K :=
              else gen_fcb_mid (nth (i - 1) l 0) (nth (i + 1) l 0) h
          end) (seq 0 n).
 
-(* zero-padded 3-tap smoothing *)
+(* replicate-padded 3-tap smoothing (conv1d(padding=PaddingMode.REPLICATE)): clamped neighbours *)
 Definition avg1 (kern : K -> K -> K -> K) (l : list K) : list K :=
-  map (fun i => kern (match i with O => 0 | S j => nth j l 0 end) (nth i l 0) (nth (S i) l 0)) (seq 0 (length l)).
+  let n := length l in
+  map (fun i => kern (nth (Nat.pred i) l 0) (nth i l 0) (nth (nxt n i) l 0)) (seq 0 n).
 Definition smooth1 (m : fdmode) (l : list K) : list K :=
   match m with Prewitt => avg1 gen_avg_prewitt l | Sobel => avg1 gen_avg_sobel l | _ => l end.
 
